@@ -11,9 +11,9 @@ def plans(tier):
     s = vlib.seed()
     if tier == "quick":
         return [dict(gens="arbitrary", variants="base", n=3000, W=4, nmax=16, bias=0.7, seed=s),
-                dict(gens="arbitrary,collapse", variants="base", n=1500, W=8, nmax=24, bias=0.5, seed=s + 1)]
+                dict(gens="arbitrary,collapse,spiral", variants="base", n=1500, W=8, nmax=24, bias=0.5, seed=s + 1)]
     return [dict(gens="arbitrary", variants="base", n=120000, W=4, nmax=20, bias=0.7, seed=s),
-            dict(gens="arbitrary,collapse", variants="base", n=60000, W=8, nmax=32, bias=0.5, seed=s + 1),
+            dict(gens="arbitrary,collapse,spiral", variants="base", n=60000, W=8, nmax=32, bias=0.5, seed=s + 1),
             dict(gens="arbitrary", variants="base", n=60000, W=2, nmax=24, bias=0.9, seed=s + 2)]
 
 
@@ -44,10 +44,68 @@ def chains_part(tier):
     return extra
 
 
+def kmp_part(tier, drv, cov):
+    """Kmp.tla: kmpTable / kmpSearch / kmpSearchAll as a state machine (index safety, progress, relation to the true search),
+    and every vector of it through the real kmpSearchAll (KmpTrace.tla). Returns the anomalies (records that are neither the
+    modelled code nor the textbook search, or that panic)."""
+    import random
+    cfgs = ["MC_Kmp_coded.cfg", "MC_Kmp_kmp.cfg"] + (["MC_Kmp_three.cfg", "MC_Kmp_thorough.cfg"] if tier == "thorough" else ["MC_Kmp_three_quick.cfg"])
+    vecs = []
+    models = []
+    for cfg in cfgs:
+        r = vlib.run_tlc("Kmp", cfg, timeout=3600, heap="8g", gc="parallel")
+        if not r.ok:
+            raise vlib.Broken("design model Kmp/%s fails: %s\n%s" % (cfg, r.violated or r.error, r.trace_text[:2000]))
+        models.append({"model": cfg, "states": r.distinct, "transitions": r.generated, "wall_s": round(r.wall, 1)})
+        vecs += [{"corpus": x["corpus"], "find": x["find"]} for x in r.vecs]
+    if len(vecs) < 30000:
+        raise vlib.Broken("expected at least 30000 vectors from MC_Kmp, got %d" % len(vecs))
+    # random longer inputs with periodic structure (self-overlapping patterns are where the code deviates)
+    rng = random.Random(vlib.seed() * 7 + 3)
+    for _ in range(4000 if tier == "quick" else 40000):
+        k = rng.randint(2, 4)
+        per = [rng.randrange(k) for _ in range(rng.randint(1, 4))]
+        find = (per * 6)[:rng.randint(1, 10)]
+        if rng.random() < 0.5:
+            find[rng.randrange(len(find))] = rng.randrange(k)
+        corpus = []
+        while len(corpus) < rng.randint(len(find), 40):
+            corpus += find[:rng.randint(1, len(find))] if rng.random() < 0.8 else [rng.randrange(k)]
+        vecs.append({"corpus": corpus, "find": find})
+    p = vlib.run([drv, "kmp-run"], input="\n".join(json.dumps(x) for x in vecs) + "\n", timeout=1800)
+    if p.returncode != 0:
+        raise vlib.Broken("kmp-run failed: " + p.stderr[-2000:])
+    lines = p.stdout.splitlines()
+    if len(lines) != len(vecs):
+        raise vlib.Broken("kmp-run returned %d records for %d vectors" % (len(lines), len(vecs)))
+    anomalies = []
+    states = 0
+    chunks = [lines[i::8] for i in range(8)]
+    import concurrent.futures
+    with concurrent.futures.ThreadPoolExecutor(max_workers=8) as ex:
+        futs = [ex.submit(vlib.validate_records, "KmpTrace", "KmpTrace.cfg", "kmp_trace.ndjson", c, None, 2, 3600, 3,
+                          lambda inv, idx, line: anomalies.append((inv, line))) for c in chunks]
+        for f in futs:
+            states += f.result()[0]
+    cov["kmp_models"] = models
+    cov["kmp_vectors_replayed"] = len(lines)
+    cov["kmp_anomalies"] = len(anomalies)
+    cov["states"] += sum(m["states"] for m in models) + states
+    cov["transitions"] += sum(m["transitions"] for m in models)
+    cov["traces_validated_against_impl"] += len(lines)
+    return anomalies
+
+
 def run(tier):
     extra = chains_part(tier)
 
     def post(v, drv, cov):
+        anomalies = kmp_part(tier, drv, cov)
+        if anomalies and not v.violations and not getattr(extra, "fails", []):
+            # kmpSearchAll's inputs are not shown reachable from a polygon: no verdict on C06 from them, but Kmp.tla does not describe this code
+            raise vlib.Broken("kmpSearchAll is neither the modelled code nor the textbook search on %d vector(s), e.g. %s (%s): Kmp.tla's design "
+                              "results (index safety, progress) do not transfer to this code, and no polygon-level failure was found"
+                              % (len(anomalies), anomalies[0][1][:300], anomalies[0][0]))
         for inv, line in getattr(extra, "fails", [])[:5]:
             v.violation("kmpDeduplicate on label sequence %s: %s fails" % (line[:200], inv), {"kind": "kmp-record", "invariant": inv, "record": json.loads(line)}, name="kmp")
         cov["label_sequences"] = getattr(extra, "nseq", 0)
